@@ -3,11 +3,16 @@ package props
 import (
 	"database/sql"
 	"encoding/hex"
+	"encoding/json"
 	"fmt"
+	"net/http"
 	"path/filepath"
 	"sort"
+	"strconv"
+	"time"
 
 	"verifharness/core"
+	"verifharness/inproc"
 	"verifharness/lnmodel"
 	"verifharness/menv"
 	"verifharness/refcrypto"
@@ -52,6 +57,40 @@ func c09ReadDB(dir string) (seed []byte, idx map[string]uint32, active map[strin
 		idx[id], active[id], fees[id] = i, a, f
 	}
 	return
+}
+
+// c09HTTPKeys fetches a keys endpoint through the HTTP handler and returns the id and the
+// key map of the single keyset it must contain.
+func c09HTTPKeys(env *menv.Env, path string) (string, map[uint64]string, error) {
+	req, _ := http.NewRequest("GET", "http://mint"+path, nil)
+	st, _, body, p, hang := inproc.Serve(env.Handler(), req, 60*time.Second)
+	if p != "" || hang {
+		return "", nil, fmt.Errorf("handler died: panic=%q hang=%v", p, hang)
+	}
+	if st != 200 {
+		return "", nil, fmt.Errorf("status %d: %s", st, truncStr(string(body), 120))
+	}
+	var resp struct {
+		Keysets []struct {
+			Id   string            `json:"id"`
+			Keys map[string]string `json:"keys"`
+		} `json:"keysets"`
+	}
+	if err := json.Unmarshal(body, &resp); err != nil {
+		return "", nil, err
+	}
+	if len(resp.Keysets) != 1 {
+		return "", nil, fmt.Errorf("%d keysets in the answer", len(resp.Keysets))
+	}
+	keys := map[uint64]string{}
+	for k, v := range resp.Keysets[0].Keys {
+		a, err := strconv.ParseUint(k, 10, 64)
+		if err != nil {
+			return "", nil, fmt.Errorf("key %q is not an amount", k)
+		}
+		keys[a] = v
+	}
+	return resp.Keysets[0].Id, keys, nil
 }
 
 func runC09(r *core.Run) {
@@ -164,6 +203,21 @@ func runC09(r *core.Run) {
 						r.Violate("keyset-fee-changed", fmt.Sprintf("keyset %s: input_fee_ppk was %d, is %d after %s", k.Id, old.fee, k.InputFeePpk, what), csig, nil)
 					}
 				}
+				// the same keyset as served over HTTP to a wallet that asks for it by id
+				if hid, hkeys, herr := c09HTTPKeys(env, "/v1/keys/"+k.Id); herr != nil {
+					r.Violate("http-keys-by-id:unreadable", "GET /v1/keys/"+k.Id+": "+herr.Error(), csig, nil)
+				} else {
+					if hid != k.Id {
+						r.Violate("http-keys-by-id:other-keyset", fmt.Sprintf("GET /v1/keys/%s answered with keyset %s (after %s)", k.Id, hid, what), csig, nil)
+					}
+					for a, v := range keys {
+						if hkeys[a] != v {
+							r.Violate("http-keys-by-id:keys-differ", fmt.Sprintf("GET /v1/keys/%s: key for %d differs from the mint's keyset (after %s)", k.Id, a, what), csig, nil)
+							break
+						}
+					}
+					r.Count("http_keys_by_id_compared", 1)
+				}
 				if dbFees[k.Id] != k.InputFeePpk || dbActive[k.Id] != k.Active {
 					r.Violate("listing-differs-from-storage", fmt.Sprintf("keyset %s listed fee=%d active=%v, stored fee=%d active=%v", k.Id, k.InputFeePpk, k.Active, dbFees[k.Id], dbActive[k.Id]), csig, nil)
 				}
@@ -171,6 +225,21 @@ func runC09(r *core.Run) {
 			for id := range seen {
 				if !listed[id] {
 					r.Violate("keyset-disappeared", fmt.Sprintf("keyset %s is no longer listed after %s", id, what), csig, nil)
+				}
+			}
+			// GET /v1/keys (the answer may lag behind a runtime rotation: the server caches it for up
+			// to 30 s; that is not part of the statement) must in any case be one of the mint's
+			// keysets, consistent in itself
+			if hid, hkeys, herr := c09HTTPKeys(env, "/v1/keys"); herr != nil {
+				r.Violate("http-keys:unreadable", "GET /v1/keys: "+herr.Error(), csig, nil)
+			} else if old := seen[hid]; old == nil {
+				r.Violate("http-keys:unknown-keyset", "GET /v1/keys answered with keyset "+hid+" which the mint does not list", csig, nil)
+			} else {
+				for a, v := range old.keys {
+					if hkeys[a] != v {
+						r.Violate("http-keys:keys-differ", fmt.Sprintf("GET /v1/keys: key for %d of keyset %s differs", a, hid), csig, nil)
+						break
+					}
 				}
 			}
 			if nActive != 1 {
